@@ -19,9 +19,9 @@ _RWS = r"\s+"
 # in a word character, a closing quote or a closing parenthesis. Anywhere else
 # (after `-`, `,`, `:`, `(` or at the start) the same letters are an identifier.
 _INFIX_RWS = r"(?<=[\w')])\s+"
-_INTEGER = r"[+-]?\d+"
-_DATE = r"[1-9]\d{3}-(?:0\d|1[0-2])-(?:[0-2]\d|3[01])"
-_TIME = r"(?:[01]\d|2[0-3]):[0-5]\d(:?:[0-5]\d(?:\.\d{1,12})?)"
+_INTEGER = r"[+-]?[0-9]+"
+_DATE = r"[1-9][0-9]{3}-(?:0[0-9]|1[0-2])-(?:[0-2][0-9]|3[01])"
+_TIME = r"(?:[01][0-9]|2[0-3]):[0-5][0-9](:?:[0-5][0-9](?:\.[0-9]{1,12})?)"
 
 # Defines known functions and min/max nr of args:
 ODATA_FUNCTIONS = {
@@ -124,7 +124,7 @@ class ODataLexer(Lexer):
     ####################################################################################
 
     @_(
-        r"duration'[+-]?P(?:\d+Y)?(?:\d+M)?(?:\d+D)?(?:T(?:\d+H)?(?:\d+M)?(?:\d+(?:\.\d+)?S)?)?'"
+        r"duration'[+-]?P(?:[0-9]+Y)?(?:[0-9]+M)?(?:[0-9]+D)?(?:T(?:[0-9]+H)?(?:[0-9]+M)?(?:[0-9]+(?:\.[0-9]+)?S)?)?'"
     )
     def DURATION(self, t):
         ":meta private:"
@@ -157,13 +157,13 @@ class ODataLexer(Lexer):
         t.value = ast.Geography(t.value[10:-1])
         return t
 
-    @_(r"[\da-f]{8}-[\da-f]{4}-[\da-f]{4}-[\da-f]{4}-[\da-f]{12}")
+    @_(r"[0-9a-f]{8}-[0-9a-f]{4}-[0-9a-f]{4}-[0-9a-f]{4}-[0-9a-f]{12}")
     def GUID(self, t):
         ":meta private:"
         t.value = ast.GUID(t.value)
         return t
 
-    @_(_DATE + r"T" + _TIME + r"?(Z|[+-](?:[01]\d|2[0-3]):[0-5]\d)?")
+    @_(_DATE + r"T" + _TIME + r"?(Z|[+-](?:[01][0-9]|2[0-3]):[0-5][0-9])?")
     def DATETIME(self, t):
         ":meta private:"
         # The `T` and `Z` designators are case insensitive, normalize them:
@@ -182,7 +182,7 @@ class ODataLexer(Lexer):
         t.value = ast.Time(t.value)
         return t
 
-    @_(_INTEGER + r"((?:(?:\.\d+)(?:e[-+]?\d+))|(?:\.\d+)|(?:e[-+]?\d+))")
+    @_(_INTEGER + r"((?:(?:\.[0-9]+)(?:e[-+]?[0-9]+))|(?:\.[0-9]+)|(?:e[-+]?[0-9]+))")
     def DECIMAL(self, t):
         ":meta private:"
         t.value = ast.Float(t.value)
